@@ -253,3 +253,37 @@ Proof.
   destruct (edited_same_decoding_typed u Hu f meta' Hst Hw T C edits fn rs K' KS Hre) as (Ed & _).
   rewrite Ed. exact Hdec.
 Qed.
+
+(* ---- C02 + C10: the edited file still passes the strict stream validator of the codec area (every frame RFC-valid and
+   canonical, numbering, block sizes, totals), with the blocks that spell the samples written *)
+Theorem written_then_edited_valid : forall (u : list N -> bool),
+  (forall s, Forall (fun b => b < 128) s -> u s = true) ->
+  forall o L md5, (forall l, length (md5 l) = 16%nat) -> (forall l, Forall (fun b => b < 256) (md5 l)) ->
+  forall p rate bps ch, rate < 2 ^ 20 -> 1 <= bps -> bps <= 32 -> 1 <= ch -> ch <= 8 ->
+  forall wo total w chunks,
+  options_wf wo -> Forall plain (o_metadata wo) -> seektables (o_metadata wo) = 0%nat ->
+  sample_new p [] wo rate bps ch total = Ok w ->
+  forallb (FlacCodec.Wf.fits bps) (concat chunks) = true ->
+  let W := N.of_nat (length (concat chunks)) / ch in
+  1 <= W -> N.of_nat (length (concat chunks)) < 2 ^ 36 ->
+  match total with Some T => T = ch * W | None => True end ->
+  exists f blocks,
+    sample_run (FlacE2E.E2E.encB o L rate bps) md5 p w chunks = Ok f /\
+    concat (map FlacCodec.Stream.interleave_frame blocks) =
+      firstn (N.to_nat ch * (length (concat chunks) / N.to_nat ch)) (concat chunks) /\
+    forall edits fn rs,
+      Forall (typed_edit u) edits -> Forall (U.keeps_streaminfo FlacMeta.Blocks.block) edits ->
+      U.run_edits FlacMeta.Blocks.block psize_r ser_r uclass_r (read_blocks_r u) edits (f_stream f) = (fn, rs) ->
+      FlacCodec.Spec.spec_stream fn = Ok (FlacE2E.Bridge.conv_si (f_si f), blocks).
+Proof.
+  intros u Hu o L md5 Hmd5 Hmd5b p rate bps ch Hrate Hb1 Hb32 Hc1 Hc8 wo total w chunks Hwf Hpl Hs0 Hnew Hfits W HW Hlen Htot.
+  destruct (FlacE2E.Success.sample_writer_file_valid o L md5 Hmd5 p rate bps wo ch total w chunks Hwf Hnew Hfits HW Hlen Htot)
+    as (f & blocks & Hrun & Hspec & Hcat).
+  destruct (FlacE2E.Success.sample_run_succeeds o L md5 Hmd5 p rate bps ch Hrate Hb1 Hb32 Hc1 Hc8 wo total w chunks
+              Hwf Hnew Hfits HW Hlen Htot) as (f' & Hrun' & Hfit).
+  assert (Ef : f' = f) by (rewrite Hrun in Hrun'; inversion Hrun'; reflexivity). subst f'.
+  exists f, blocks. split; [exact Hrun|]. split; [exact Hcat|].
+  intros edits fn rs K KS Hre.
+  destruct (edited_same_decoding u Hu o L md5 Hmd5 Hmd5b p rate bps ch wo total w chunks f Hwf Hpl Hs0 Hnew Hrun Hfit edits fn rs K KS Hre)
+    as (_ & Es & _). rewrite Es. exact Hspec.
+Qed.
